@@ -1,4 +1,5 @@
 import OlVerif.Lower.Nsp
+import OlVerif.Lower.Binder
 namespace OlVerif.C06
 /-- stores and loads of one name in one namespace use the same storage: a dict-stored name is
     read from the dict it is written to (function namespaces, no comprehension shadowing) -/
@@ -13,4 +14,61 @@ theorem load_store_same_dict_outer (n : Nsp) (name d : String) (v : Expr) (s : S
     (ho : n.outerMap.lookup name = some d) (hi : ¬ name ∈ n.innerNonlocal) :
     n.getAssign name v = .ok (dictSetitem d name v) ∧ n.getLoad [] name = .ok (dictLoad d name) := by
   simp [Nsp.getAssign, Nsp.getLoad, hk, hs, hg, ho, hi]
+
+/-! ### captured variables live in the dictionary of the function CPython binds them in
+
+Specification: `pyBinder x stack` - CPython's rule on its own tables (`is_local()`): the nearest
+enclosing function scope in which `x` is local; classes are skipped.  `WalkOK x stack` - what
+CPython guarantees on the way there (the name is in the intermediate tables and the code's
+ownership test agrees with `is_local()` on it; evaluated on every symbol table of the corpus by
+the correspondence check). -/
+
+/-- **A free / nonlocal name goes to CPython's binder.**  Every (name ↦ dictionary) decision of a
+    namespace built under `stack` names the dictionary of the function scope CPython binds the
+    name in - whatever lies in between (classes, functions that rebind it through `nonlocal`,
+    functions that only pass it through), at any depth. -/
+theorem free_name_goes_to_binder (s : SymScope) (stack : Stack) (sup : Supply) (n : Nsp) (cl : List Claim)
+    (sup' : Supply) (h : buildNsp stack sup s = .ok (n, cl, sup')) (x d : String) (hx : (x, d) ∈ n.outerMap)
+    (hw : WalkOK x stack) : pyBinder x stack = some d := by
+  obtain ⟨p, hp⟩ := outerMap_spec s stack sup n cl sup' h (x, d) hx
+  exact pyBinder_of_findOwner x stack hw d p hp
+
+/-- ... and conversely the walk succeeds whenever CPython has a binder -/
+theorem binder_is_found (x : String) (stack : Stack) (hw : WalkOK x stack) (d : String)
+    (h : pyBinder x stack = some d) : ∃ p, findOwner x stack = .ok (d, p) :=
+  findOwner_eq_pyBinder x stack hw d h
+
+/-- **The binder knows.**  If any namespace below `n` keeps a name in `n`'s dictionary, `n` lists
+    it among its dictionary-stored names, hence (by `load_store_same_dict_inner`) reads and writes
+    it in the same dictionary: one variable, one storage. -/
+theorem binder_knows (s : SymScope) (stack : Stack) (sup : Supply) (n : Nsp) (cl : List Claim) (sup' : Supply)
+    (h : buildNsp stack sup s = .ok (n, cl, sup')) (x : String)
+    (hx : (x, n.dictName) ∈ Nsp.allOuter.allOuterL n.children) : x ∈ n.innerNonlocal :=
+  owner_knows s stack sup n cl sup' h (x, n.dictName) hx rfl
+
+/-- **Dictionaries are never confused**: the dictionary of a namespace differs from that of every
+    enclosing scope (the name supply is injective), so a name kept in an enclosing function's
+    dictionary cannot be taken for one of the namespace's own. -/
+theorem dictionary_is_new (s : SymScope) (stack : Stack) (sup : Supply) (n : Nsp) (cl : List Claim) (sup' : Supply)
+    (h : buildNsp stack sup s = .ok (n, cl, sup'))
+    (hst : ∀ e ∈ stack, EarlierName e.2.2 sup.next) : ∀ e ∈ stack, e.2.2 ≠ n.dictName :=
+  dict_new s stack sup n cl sup' h hst
+
+/-- non-vacuity: `def f0(): x = 0; def f1(): nonlocal x; x = 1; class K: def f2(): return x` -
+    from f2's point of view CPython's binder is f0 (through the class and through f1, which rebinds
+    x via nonlocal), and the walk condition holds -/
+def exLoc : SymInfo :=
+  { name := "x", isAssigned := true, isParameter := false, isGlobal := false, isDeclaredGlobal := false,
+    isNonlocal := false, isFree := false, isLocal := true }
+def exNl : SymInfo :=
+  { name := "x", isAssigned := true, isParameter := false, isGlobal := false, isDeclaredGlobal := false,
+    isNonlocal := true, isFree := true, isLocal := false }
+def exStack : Stack :=
+  [(.class_, .mk "K" .class_ 3 [] [] [] [] [] [], "dK"), (.function, .mk "f1" .function 2 [exNl] ["x"] ["x"] [] [] [], "d1"),
+   (.function, .mk "f0" .function 1 [exLoc] [] [] [] [] [], "d0"), (.module, default, "")]
+
+example : pyBinder "x" exStack = some "d0" ∧ WalkOK "x" exStack := by
+  refine ⟨by simp [exStack, exLoc, exNl, pyBinder, SymScope.lookup, SymScope.symbols], ?_⟩
+  simp [exStack, exLoc, exNl, WalkOK, SymScope.lookup, SymScope.symbols, SymInfo.owns]
+
 end OlVerif.C06
